@@ -226,7 +226,7 @@ type OpUpdateJustified struct {
 }
 
 func (op *OpUpdateJustified) Apply(ft *ForkChoiceTestTarget, fc forkchoice.Forkchoice) error {
-	err := fc.UpdateJustified(context.Background(), op.Trigger, op.Justified, op.Finalized, op.JustifiedStateBalances)
+	err := fc.UpdateJustified(context.Background(), op.Trigger, op.Finalized, op.Justified, op.JustifiedStateBalances)
 	if op.Ok && err != nil {
 		return fmt.Errorf("unexpected error: %v", err)
 	}
